@@ -3,6 +3,7 @@
 package bluemonday
 
 import (
+	"net/url"
 	"strings"
 
 	"golang.org/x/net/html"
@@ -408,4 +409,116 @@ func HarnessAttrs_matchRegex() {
 	h1, h2, h3 := has(r1), has(r2), has(r3)
 	verifAssert(verifAnd(verifAnd(verifImplies(m1, h1), verifImplies(m1, h2)), verifImplies(m2, h3)), "C07-pattern-rules-merged")
 	verifAssert(verifAnd(verifAnd(verifImplies(h1, m1), verifImplies(h2, m1)), verifImplies(h3, m2)), "C02-no-rules-from-non-matching-patterns")
+}
+
+// ---- C03: URL attributes ------------------------------------------------------------
+
+var urlPositions = [][2]string{
+	{"a", "href"}, {"area", "href"}, {"base", "href"}, {"link", "href"},
+	{"blockquote", "cite"}, {"del", "cite"}, {"ins", "cite"}, {"q", "cite"},
+	{"audio", "src"}, {"embed", "src"}, {"iframe", "src"}, {"img", "src"}, {"input", "src"},
+	{"script", "src"}, {"source", "src"}, {"track", "src"}, {"video", "src"},
+}
+
+func HarnessC03_urls() {
+	p := &Policy{}
+	p.init()
+	p.RequireParseableURLs(true)
+	p.allowRelativeURLs = nondetBool("p.allowRelative")
+	verifNoteBool("p.allowRelative", p.allowRelativeURLs)
+	// scheme table
+	e := verifParam("schemeEntries")
+	var keys []string
+	var shapes []int
+	for i := 0; i < e; i++ {
+		s := nondetString("p.scheme")
+		verifAssume(verifMatch(`^[^A-Z]*$`, s)) // AllowURLSchemes lower-cases
+		for _, o := range keys {
+			verifAssume(s != o)
+		}
+		keys = append(keys, s)
+		shape := nondetIntRange("p.schemeShape", 0, 2)
+		shapes = append(shapes, shape)
+		switch shape {
+		case 0:
+			p.allowURLSchemes[s] = nil
+		case 1:
+			p.allowURLSchemes[s] = []urlPolicy{urlPolicy(nondetURLPred("p.urlpred"))}
+		default:
+			p.allowURLSchemes[s] = []urlPolicy{urlPolicy(nondetURLPred("p.urlpred")), urlPolicy(nondetURLPred("p.urlpred"))}
+		}
+	}
+	if nondetIntRange("p.hasSchemeRe", 0, 1) == 1 {
+		p.allowURLSchemeRegexps = append(p.allowURLSchemeRegexps, nondetRegexp("p.schemere"))
+	}
+	hasRW := nondetIntRange("p.hasRewriter", 0, 1) == 1
+	if hasRW {
+		p.srcRewriter = urlRewriter(nondetRewriter("p.rewrite"))
+	}
+	pos := nondetIntRange("pos", 0, len(urlPositions)-1)
+	el, key := urlPositions[pos][0], urlPositions[pos][1]
+	verifNoteInt("pos", pos)
+	allowGlobally(p, key)
+	raw := nondetString("raw")
+	in := []html.Attribute{{Key: key, Val: raw}}
+	noteAttrs("in", in)
+	out := p.sanitizeAttrs(el, in, map[string][]attrPolicy{})
+	noteAttrs("out", out)
+	if len(out) == 0 {
+		verifReach("C03-dropped")
+		return
+	}
+	verifReach("C03-survives")
+	// ---- oracle, from the statement, over the A3 functions ----
+	t := strings.TrimSpace(raw)
+	hasWS := verifOr(verifOr(strings.Contains(t, " "), strings.Contains(t, "\t")), strings.Contains(t, "\n"))
+	isData := strings.HasPrefix(t, "data:")
+	ok := true
+	check := func(c bool, id string) {
+		verifNoteBool("c:"+id, c)
+		ok = verifAnd(ok, c)
+	}
+	check(verifOr(verifNot(hasWS), isData), "no-white-space")
+	// the rest of the oracle is stated for values without white space; data
+	// URIs with embedded white space are normalised by the sanitiser before
+	// parsing and are only required to have an allowed scheme (A3: data)
+	scheme := verifURLScheme(t)
+	verifNote("scheme", scheme)
+	schemeOK := false
+	for i, k := range keys {
+		accepted := shapes[i] == 0
+		if !accepted {
+			u, _ := url.Parse(t)
+			acc := false
+			for _, f := range p.allowURLSchemes[k] {
+				if u != nil {
+					acc = verifOr(acc, f(u))
+				}
+			}
+			schemeOK = verifOr(schemeOK, verifAnd(scheme == k, acc))
+		} else {
+			schemeOK = verifOr(schemeOK, scheme == k)
+		}
+	}
+	registered := false
+	for _, k := range keys {
+		registered = verifOr(registered, scheme == k)
+	}
+	for _, re := range p.allowURLSchemeRegexps {
+		schemeOK = verifOr(schemeOK, verifAnd(verifNot(registered), re.MatchString(scheme)))
+	}
+	plain := verifNot(hasWS)
+	check(verifImplies(plain, verifURLOk(t)), "parseable")
+	check(verifImplies(verifAnd(plain, scheme != ""), schemeOK), "scheme-allowed")
+	check(verifImplies(verifAnd(plain, scheme == ""), verifAnd(p.allowRelativeURLs, verifURLNorm(t) != "")), "relative-only-if-allowed")
+	if !(hasRW && key == "src") {
+		check(verifImplies(plain, out[0].Val == verifURLNorm(t)), "value-is-normalised-url")
+	} else {
+		u2, err := url.Parse(verifURLNorm(t))
+		if err == nil {
+			p.srcRewriter(u2)
+			check(verifImplies(plain, out[0].Val == u2.String()), "src-is-rewriter-result")
+		}
+	}
+	verifAssert(ok, "C03")
 }
